@@ -65,6 +65,13 @@ def device_hooks(h_send_fail_at=None, receive_script=None):
     def _receive(ip, args, kwargs):
         slf = args[0]
         ip.ctx.event('_receive', id(slf), kwargs.get('block', args[1] if len(args) > 1 else True), tuple(id(l) for l in ip.ctx.held))
+        if slf.attrs.get('script') is not None:
+            # per-port scripted device: its first poll takes in `script` messages and the device then closes the port itself
+            if len([e for e in ip.ctx.log if e[0] == '_receive' and e[1] == id(slf)]) == 1:
+                for k in range(slf.attrs['script']):
+                    slf.attrs['_messages'].append(Pending(1000 * slf.attrs['tag'] + k))
+                ip.call(ip.getattr(slf, 'close'), [], {})
+            return None
         if str(slf.attrs.get('name', '')).startswith('sub'):
             return None              # the sub-ports of a MultiPort are quiet devices in these units
         if receive_script is not None:
@@ -468,6 +475,73 @@ class MultiPortReceive(Contract):
                 'every-pending-message-of-every-open-port-collected-per-port-in-order': q == flat1 or q == flat2}
 
 
+# ====================================================================== multi_receive over ports that close themselves
+_MULTI = Harness('''
+    def do(mp, how, multi_receive):
+        if how == 'multi_receive':
+            return list(multi_receive(mp.ports, block=False))
+        if how == 'MultiPort._receive':
+            mp._receive(block=False)
+            return list(mp._messages)
+        out = []
+        while True:
+            m = mp.poll()
+            if m is None:
+                break
+            out.append(m)
+        return out
+''')
+
+
+@contract
+class MultiReceiveSelfClosing(Contract):
+    """sub-ports that take messages in and close themselves in the same poll (socket ports whose peer wrote and left): every
+    message taken in is handed out, in per-port order; ports that were closed before are not polled"""
+    key = 'C11.multi_receive-drains-self-closing-ports'
+    target = P + 'multi_receive'
+    properties = ('C11', 'C18')
+    configs = tuple({'how': how, 'taken': t, 'pending': pq} for how in ('multi_receive', 'MultiPort._receive', 'MultiPort.poll')
+                    for t in ((0, 2), (3, 1), (2, 0), (1, 1)) for pq in (0, 2))
+    raises = {}
+    symbolic_only = True
+
+    def callee(self, h, cfg):
+        return _MULTI.get(h)
+
+    def hooks(self, cfg):
+        return device_hooks()
+
+    def setup(self, h, cfg, ip):
+        import random
+        ip.models.table[_time.sleep] = sleep_model
+        ip.models.table[random.Random.shuffle] = lambda ipx, rng, lst: None
+
+    def inputs(self, h, cfg):
+        import mido.ports as MP
+        h.subs = []
+        for i, t in enumerate(cfg['taken']):
+            pend = [Pending(1000 * (i + 1) + 500 + k) for k in range(cfg['pending'])] if i == 0 else []
+            h.subs.append(Obj(MP.BaseIOPort, {'name': 'self-closing%d' % i, '_lock': Obj(LockModel, {}), 'closed': False, 'script': t, 'tag': i + 1,
+                                              '_messages': collections.deque(pend), '_parser': Opaque('parser'), 'autoreset': False}))
+        h.already_closed = Obj(MP.BaseIOPort, {'name': 'closed-before', '_lock': Obj(LockModel, {}), 'closed': True, 'script': 5, 'tag': 9,
+                                               '_messages': collections.deque(), '_parser': Opaque('parser'), 'autoreset': False})
+        p = port(h, 'MultiPort', pending=0, extra={'ports': [h.subs[0], h.already_closed, h.subs[1]], 'yield_ports': False})
+        import mido.ports as MP2
+        return [p, cfg['how'], MP2.multi_receive], {}
+
+    def ensures(self, h, cfg, a, r):
+        got = [x.i for x in r if isinstance(x, Pending)]
+        want = []
+        for i, t in enumerate(cfg['taken']):
+            if i == 0:
+                want += [1000 + 500 + k for k in range(cfg['pending'])]
+            want += [1000 * (i + 1) + k for k in range(t)]
+        polled = [e[1] for e in log_of(h, '_receive')]
+        return {'every-message-taken-in-is-handed-out-in-per-port-order': len(r) == len(got) and got == want,
+                'each-open-port-polled-once-closed-port-not-polled': sorted(polled) == sorted(id(s_) for s_ in h.subs),
+                'self-closed-ports-are-closed': all(attrs_of(s_)['closed'] is True for s_ in h.subs)}
+
+
 # ====================================================================== C10: ownership discipline
 def queue_events(h, q):
     return [e for e in h.ctx.log if e[0] in ('deque.read', 'deque.append', 'deque.popleft') and e[1] == id(q)]
@@ -557,6 +631,11 @@ class LockDiscipline(Contract):
             p = port(h, cls, pending=cfg['pending'])
             h.owner_lock = h.lock
             h.queue = attrs_of(p)['_messages']
+        h.subports = {}
+        if cls == 'IOPort':
+            h.subports = {id(inp): inp, id(outp): outp}
+        elif cls == 'MultiPort':
+            h.subports = {id(sub): sub}
         return [h.port, cfg['op'], msg], {}
 
     def closed_while_waiting(self, h, cfg, a, pr):
@@ -567,5 +646,110 @@ class LockDiscipline(Contract):
         bad = [e for e in ev if id(h.owner_lock) not in e[2]]
         dev = [e for e in h.ctx.log if e[0] in ('_send', '_receive') and e[1] == id(h.port)]
         bad_dev = [e for e in dev if id(h.owner_lock) not in e[-1]]
+        # every device (also the ones wrapped by IOPort / MultiPort) is only used while ITS OWN port lock is held: a wrapper
+        # that calls the wrapped port's _send/_receive directly lets two threads into one device
+        bad_sub = []
+        for e in h.ctx.log:
+            if e[0] in ('_send', '_receive') and e[1] != id(h.port):
+                po = h.subports.get(e[1])
+                if po is not None and attrs_of(po)['_lock'].cls is LockModel and id(attrs_of(po)['_lock']) not in e[-1]:
+                    bad_sub.append(e)
         return {'queue-touched-only-under-its-owning-lock': not bad,
-                'device-used-only-under-the-port-lock': not bad_dev}
+                'device-used-only-under-the-port-lock': not bad_dev,
+                'wrapped-devices-used-only-under-their-own-port-lock': not bad_sub}
+
+
+# ====================================================================== construction establishes what the other contracts start from
+_CONSTRUCT = Harness('''
+    def do(cls, args, kwargs):
+        return cls(*args, **kwargs)
+''')
+
+
+class _RLockToken:
+    """threading.RLock() as seen by the constructor contract: a fresh re-entrant lock object"""
+    _pyvc_model = True
+
+
+@contract
+class PortConstruction(Contract):
+    """the port contracts of C10/C11 start from harness-built ports; this one proves that the real constructors build exactly
+    such ports: open, a fresh RE-ENTRANT lock of their own (DummyLock only for the IOPort wrapper), the receive queue IS the
+    parser's queue (what the parser completes is what receive() hands out) and is an unbounded deque, autoreset stored, _open
+    called exactly once, while the port still reports closed, with the keyword arguments given"""
+    key = 'C11.construction'
+    target = P + 'BasePort.__init__'
+    properties = ('C11', 'C10')
+    configs = tuple({'cls': c, 'autoreset': a} for c in ('BaseInput', 'BaseOutput', 'BaseIOPort', 'EchoPort', 'MultiPort', 'IOPort')
+                    for a in ((None,) if c in ('BaseInput', 'MultiPort', 'IOPort') else (None, False, True)))
+    raises = {}
+    symbolic_only = True
+
+    def callee(self, h, cfg):
+        return _CONSTRUCT.get(h)
+
+    def hooks(self, cfg):
+        def _open(ip, args, kwargs):
+            slf = args[0]
+            ip.ctx.event('_open', id(slf), slf.attrs.get('closed'), dict(kwargs))
+            return None
+        return {raw_function(P + 'BasePort._open'): _open}
+
+    def setup(self, h, cfg, ip):
+        import threading
+        h.locks = []
+
+        def rlock(ipx, *a, **k):
+            o = Obj(_RLockToken, {})
+            h.locks.append(o)
+            return o
+        ip.models.table[threading.RLock] = rlock
+
+    def inputs(self, h, cfg):
+        import mido.ports as MP
+        cls = getattr(MP, cfg['cls'])
+        kw = {}
+        if cfg['autoreset'] is not None:
+            kw['autoreset'] = cfg['autoreset']
+        if cfg['cls'] == 'MultiPort':
+            h.subs = [Obj(MP.BaseIOPort, {'name': 's%d' % i, 'closed': False}) for i in range(2)]
+            return [cls, [tuple(h.subs)], {}], {}
+        if cfg['cls'] == 'IOPort':
+            h.q = collections.deque()
+            h.inp = Obj(MP.BaseInput, {'name': 'in', 'closed': False, '_messages': h.q})
+            h.outp = Obj(MP.BaseOutput, {'name': None, 'closed': False})
+            return [cls, [h.inp, h.outp], {}], {}
+        kw['extra_device_option'] = 7
+        return [cls, ['the name'], kw], {}
+
+    def ensures(self, h, cfg, a, r):
+        import mido.ports as MP
+        import mido.parser as PP
+        ra = attrs_of(r)
+        opens = [e for e in h.ctx.log if e[0] == '_open']
+        out = {'open': ra.get('closed') is False}
+        c = cfg['cls']
+        if c == 'IOPort':
+            out['wrapper-shares-the-input-queue'] = ra.get('_messages') is h.q
+            out['wrapper-has-no-lock-of-its-own (the wrapped ports lock themselves)'] = cls_of(ra.get('_lock')) is MP.DummyLock
+            out['wraps-the-given-ports'] = ra.get('input') is h.inp and ra.get('output') is h.outp
+            out['name'] = ra.get('name') == 'in + None'
+            return out
+        out['own-fresh-re-entrant-lock'] = len(h.locks) == 1 and ra.get('_lock') is h.locks[0]
+        want_kw = {} if c == 'MultiPort' else {'extra_device_option': 7}
+        if c in ('BaseIOPort', 'EchoPort') and cfg['autoreset'] is not None:
+            want_kw['autoreset'] = cfg['autoreset']      # the input half does not consume it: it reaches _open (as the code is)
+        out['_open-called-exactly-once-while-still-closed-with-the-device-options'] = \
+            len(opens) == 1 and opens[0][1] == id(r) and opens[0][2] is True and opens[0][3] == want_kw
+        out['name'] = ra.get('name') == ('multi' if c == 'MultiPort' else 'the name')
+        if c != 'BaseOutput':
+            q = ra.get('_messages')
+            par = ra.get('_parser')
+            out['receive-queue-is-the-parser-queue-and-unbounded'] = cls_of(par) is PP.Parser and q is attrs_of(par)['messages'] \
+                and isinstance(q, collections.deque) and q.maxlen is None and len(q) == 0
+        if c != 'BaseInput':
+            out['autoreset-stored'] = ra.get('autoreset') is (cfg['autoreset'] if cfg['autoreset'] is not None else False)
+        if c == 'MultiPort':
+            out['ports-copied-into-a-list'] = isinstance(ra.get('ports'), list) and len(ra['ports']) == 2 and all(x is y for x, y in zip(ra['ports'], h.subs)) \
+                and ra.get('yield_ports') is False
+        return out
